@@ -227,6 +227,25 @@ func (p *Profile) genEvent(rng *rand.Rand, tr *Trace) M {
 				return v
 			}
 		}
+		if len(branches) > 0 && rng.Intn(10) == 0 {
+			// a name related to an existing one as prefix or suffix (main-old / main, hotfix / fix): lookups that
+			// compare by HasPrefix/HasSuffix or by position in a sorted list confuse exactly these
+			b := branches[rng.Intn(len(branches))]
+			switch rng.Intn(4) {
+			case 0:
+				return b + []string{"2", "-old", ".x", "_"}[rng.Intn(4)]
+			case 1:
+				return []string{"hot", "x-", "re"}[rng.Intn(3)] + b
+			case 2:
+				if len(b) > 2 && !strings.EqualFold(b[:len(b)-1], "head") && isAlnum(b[len(b)-2]) {
+					return b[:len(b)-1]
+				}
+			case 3:
+				if len(b) > 2 && !strings.EqualFold(b[1:], "head") && isAlnum(b[1]) {
+					return b[1:]
+				}
+			}
+		}
 		if existing && len(branches) > 0 && rng.Intn(5) > 0 {
 			return branches[rng.Intn(len(branches))]
 		}
@@ -378,11 +397,15 @@ func (p *Profile) genEvent(rng *rand.Rand, tr *Trace) M {
 			vals = []string{"Alice", "Bob B", "a@b.example.com"}
 		}
 		key := []string{"user.name", "user.email", "core.x", "user.x", "user.name", "user.email"}[rng.Intn(6)]
+		if rng.Intn(14) == 0 {
+			// a key that differs from an identity key in letter case only is another key: it neither sets nor hides the identity
+			key = []string{"user.Name", "user.Email", "user.NAME", "user.eMail"}[rng.Intn(4)]
+		}
 		v := vals[rng.Intn(len(vals))]
 		if rng.Intn(2) == 0 {
 			v = genValue(rng, key == "user.name")
 		}
-		if key == "user.email" {
+		if strings.EqualFold(key, "user.email") {
 			v = genEmail(rng)
 		}
 		return M{"ev": "config", "global": rng.Intn(5) < 2, "key": EscS(key), "value": EscS(v)}
@@ -808,6 +831,10 @@ func containsStr(l []string, x string) bool {
 		}
 	}
 	return false
+}
+
+func isAlnum(c byte) bool {
+	return c >= '0' && c <= '9' || c >= 'a' && c <= 'z' || c >= 'A' && c <= 'Z'
 }
 
 // flipCase changes the case of the first letter of s that has one.
